@@ -27,6 +27,27 @@ fn main() {
     let mut tally = Tally::default();
     match engine.as_str() {
         "vrun" => vrun(&profile, seed, start, count, &out, verbose, &mut tally),
+        "vpure" => {
+            let workdir = std::path::Path::new(&out).parent().map_or(".".to_owned(), |p| p.display().to_string());
+            for idx in start..start + count {
+                let before = tally.violations.len();
+                match profile.as_str() {
+                    "c15" => vh::pure::c15(seed, idx, &mut tally),
+                    "c16" => vh::pure::c16(seed, idx, &mut tally, &workdir),
+                    "c17" => vh::pure::c17(seed, idx, &mut tally),
+                    "c18" => vh::pure::c18(seed, idx, &mut tally),
+                    other => {
+                        eprintln!("unknown vpure profile {other}");
+                        std::process::exit(2);
+                    }
+                }
+                if verbose {
+                    for v in &tally.violations[before..] {
+                        eprintln!("case {idx}: {} {} {}", v.property, v.signature, v.detail);
+                    }
+                }
+            }
+        }
         "vstream" => vstream(&profile, seed, start, count, verbose, &mut tally, &out),
         other => {
             eprintln!("unknown engine {other}");
